@@ -380,7 +380,7 @@ def g4(repo):
        quara/protocol/qtomography/standard/loss_minimization_estimator.py, LossMinimizationEstimator.calc_estimate_sequence:
          gen_est_loop_calls         the loss.* / algo.* calls INSIDE the loop over the data sets, in order (time measurement and
                                     validation-only `if ...: raise` statements skipped): every data set re-configures loss and algorithm
-         gen_est_calls_outside_loop loss.* / algo.* calls outside that loop (must be none)"""
+         gen_est_calls_before_loop / _after_loop   loss.* / algo.* calls before / after that loop"""
     cls = find_class(parse(repo, "quara/loss_function/probability_based_loss_function.py"), "ProbabilityBasedLossFunction")
     fn = methods(cls)["set_from_standard_qtomography_option_data"]
     seq1 = call_seq(body_nodoc(fn), {"self"})
@@ -392,12 +392,14 @@ def g4(repo):
     need(isinstance(loops[0].iter, ast.Name) and loops[0].iter.id == fn.args.args[2].arg, "the loop does not run over the sequence of data sets")
     inner = [st for st in loops[0].body if not (isinstance(st, ast.If) and any(isinstance(x, ast.Name) and x.id.startswith("is_") for x in ast.walk(st.test)))]
     seq2 = call_seq(inner, {"loss", "algo"})
-    outside = [c for st in b if st is not loops[0] and not isinstance(st, (ast.For,)) for c in
-               ["%s.%s" % (n.func.value.id, n.func.attr) for n in ast.walk(st) if isinstance(n, ast.Call) and isinstance(n.func, ast.Attribute)
-                and isinstance(n.func.value, ast.Name) and n.func.value.id in ("loss", "algo")]]
+    calls_in = lambda stmts: [c for st in stmts for c in
+                              ["%s.%s" % (n.func.value.id, n.func.attr) for n in ast.walk(st) if isinstance(n, ast.Call) and isinstance(n.func, ast.Attribute)
+                               and isinstance(n.func.value, ast.Name) and n.func.value.id in ("loss", "algo")]]
+    pos = b.index(loops[0])
     lst = lambda l: "[" + "; ".join('"%s"' % x for x in l) + "]"
     return ("Definition gen_loss_configure_calls : list string := %s.\nDefinition gen_est_loop_calls : list string := %s.\n"
-            "Definition gen_est_calls_outside_loop : list string := %s.\n" % (lst(seq1), lst(seq2), lst(outside)))
+            "Definition gen_est_calls_before_loop : list string := %s.\nDefinition gen_est_calls_after_loop : list string := %s.\n" % (
+                lst(seq1), lst(seq2), lst(calls_in(b[:pos])), lst(calls_in(b[pos + 1:]))))
 
 
 def main():
